@@ -430,6 +430,14 @@ func c05Legacy(c *Ctx) {
 		se.sid = textOf(res)
 		sess = append(sess, se)
 	}
+	// the forging peer's session exists before the workload starts (its handshake waits for quiescence)
+	var forger *rawPeer
+	if t.Bool(60) {
+		if fp, err := newRawPeer(c, w, "forger", false); err == nil {
+			forger = fp
+			defer forger.close()
+		}
+	}
 	s.Settle(10 * time.Millisecond)
 	type rec struct {
 		nonce, sid string
@@ -473,6 +481,21 @@ func c05Legacy(c *Ctx) {
 			rootsRecs = append(rootsRecs, rr)
 			c.mu.Unlock()
 		}))
+	}
+	// a forger: another legacy session posts answers with guessed request ids
+	if forger != nil {
+		{
+			nForge := 1 + t.Draw(5)
+			tasks = append(tasks, s.Go("forger", func() {
+				for i := 0; i < nForge; i++ {
+					id := 1 + c.T.Draw(4)
+					forger.post(mustJSON(map[string]interface{}{"jsonrpc": "2.0", "id": id, "result": map[string]interface{}{"roots": []interface{}{map[string]interface{}{"uri": "file:///forged", "name": "forged"}}}}))
+					if c.T.Bool(50) {
+						s.Sleep(time.Millisecond)
+					}
+				}
+			}))
+		}
 	}
 	for _, a := range s.WaitTasks(30*time.Minute, tasks...) {
 		s.Violate("C05|stuck|legacy", "%s did not finish", a.Name)
@@ -534,7 +557,11 @@ func c05Legacy(c *Ctx) {
 		s.Probe("c05.legacy_roots_ok")
 		want := rr.se.roots[0].Name + "=" + rr.se.roots[0].URI
 		if strings.TrimPrefix(rr.got, "roots:") != want {
-			s.Violate("C05|roots-wrong|legacy", "ListRoots inside session %s returned %q, want %q", rr.se.name, rr.got, want)
+			sig := "C05|roots-wrong|legacy"
+			if strings.Contains(rr.got, "forged") {
+				sig = "C05|forged-answer-accepted|legacy"
+			}
+			s.Violate(sig, "ListRoots inside session %s returned %q, want %q", rr.se.name, rr.got, want)
 		}
 	}
 	if n := mcp.VerifPendingServerRequests(w.SSE); n != 0 {
